@@ -973,6 +973,99 @@ example : (match periodicArray Rat.floor C14.roundHalfEven (1 / 1000) exU exO
 
 end examples
 
+/-! ## cylinder radius -/
+
+/-- **cylinder_radius_nearest_face**: for an aligned cell (the box vector of the dislocation line lies along its
+    Cartesian axis) `smallest²` of `cylinder_boundary` is the squared distance from the dislocation line (through the
+    Cartesian origin) to the nearest of the four faces across the two non-periodic directions - whatever the tilt of
+    the other two box vectors: no face is closer, and one face is exactly that far. -/
+theorem cylinder_radius_nearest_face (mi ni line : Nat)
+    (hperm : (mi, ni, line) ∈ [(0, 1, 2), (1, 0, 2), (0, 2, 1), (2, 0, 1), (1, 2, 0), (2, 1, 0)]) (b : Box K)
+    (hm : (b.vects.row line).get mi = 0) (hn : (b.vects.row line).get ni = 0) (hl : (b.vects.row line).get line ≠ 0)
+    (hv1 : (proj2 mi ni (b.vects.row ((line + 1) % 3))).1 * (proj2 mi ni (b.vects.row ((line + 1) % 3))).1 +
+      (proj2 mi ni (b.vects.row ((line + 1) % 3))).2 * (proj2 mi ni (b.vects.row ((line + 1) % 3))).2 ≠ 0)
+    (hv2 : (proj2 mi ni (b.vects.row ((line + 2) % 3))).1 * (proj2 mi ni (b.vects.row ((line + 2) % 3))).1 +
+      (proj2 mi ni (b.vects.row ((line + 2) % 3))).2 * (proj2 mi ni (b.vects.row ((line + 2) % 3))).2 ≠ 0) :
+    (∀ pl ∈ boxBoundaryPlanes line b, cylSmallest2 mi ni line b ≤ planeDist2 pl) ∧
+    ∃ pl ∈ boxBoundaryPlanes line b, cylSmallest2 mi ni line b = planeDist2 pl := by
+  rw [cylSmallest2_eq]
+  have hline : line = 0 ∨ line = 1 ∨ line = 2 := by
+    simp only [List.mem_cons, Prod.mk.injEq, List.mem_nil_iff, or_false] at hperm
+    omega
+  obtain ⟨⟨a, bb, c⟩, o⟩ := b
+  rcases hline with rfl | rfl | rfl
+  · -- line = 0: v1 = bb, v2 = c, L = a
+    simp only [M3.row, Nat.reduceAdd, Nat.reduceMod, OfNat.ofNat_ne_zero, OfNat.ofNat_ne_one, if_true, if_false,
+      one_ne_zero, ↓reduceIte] at hm hn hl hv1 hv2 ⊢
+    have e1 := (planeDist2_face mi ni 0 hperm a bb o hm hn hl hv1).1        -- (cross bb a, o)
+    have e2 := (planeDist2_face mi ni 0 hperm a c o hm hn hl hv2).2         -- (cross a c, o)
+    have e3 := (planeDist2_face mi ni 0 hperm a bb (o + c) hm hn hl hv1).2  -- (cross a bb, o + c)
+    have e4 := (planeDist2_face mi ni 0 hperm a c (o + bb) hm hn hl hv2).1  -- (cross c a, o + bb)
+    have hp : boxBoundaryPlanes 0 (⟨⟨a, bb, c⟩, o⟩ : Box K) =
+        [(V3.cross a c, o), (V3.cross c a, o + bb), (V3.cross bb a, o), (V3.cross a bb, o + c)] := rfl
+    rw [hp, ← e1, ← e2, ← e3, ← e4]
+    obtain ⟨h1, h2, h3, h4⟩ := min4_le (planeDist2 (V3.cross bb a, o)) (planeDist2 (V3.cross a c, o))
+      (planeDist2 (V3.cross a bb, o + c)) (planeDist2 (V3.cross c a, o + bb))
+    refine ⟨?_, ?_⟩
+    · intro pl hpl
+      simp only [List.mem_cons, List.mem_nil_iff, or_false] at hpl
+      rcases hpl with rfl | rfl | rfl | rfl <;> assumption
+    · rcases min4_mem (planeDist2 (V3.cross bb a, o)) (planeDist2 (V3.cross a c, o))
+        (planeDist2 (V3.cross a bb, o + c)) (planeDist2 (V3.cross c a, o + bb)) with h | h | h | h
+      · exact ⟨_, by simp, h⟩
+      · exact ⟨_, by simp, h⟩
+      · exact ⟨_, by simp, h⟩
+      · exact ⟨_, by simp, h⟩
+  · -- line = 1: v1 = c, v2 = a, L = bb
+    simp only [M3.row, Nat.reduceAdd, Nat.reduceMod, OfNat.ofNat_ne_zero, OfNat.ofNat_ne_one, if_true, if_false,
+      one_ne_zero, ↓reduceIte] at hm hn hl hv1 hv2 ⊢
+    have e1 := (planeDist2_face mi ni 1 hperm bb c o hm hn hl hv1).1        -- (cross c bb, o)
+    have e2 := (planeDist2_face mi ni 1 hperm bb a o hm hn hl hv2).2        -- (cross bb a, o)
+    have e3 := (planeDist2_face mi ni 1 hperm bb c (o + a) hm hn hl hv1).2  -- (cross bb c, o + a)
+    have e4 := (planeDist2_face mi ni 1 hperm bb a (o + c) hm hn hl hv2).1  -- (cross a bb, o + c)
+    have hp : boxBoundaryPlanes 1 (⟨⟨a, bb, c⟩, o⟩ : Box K) =
+        [(V3.cross c bb, o), (V3.cross bb c, o + a), (V3.cross bb a, o), (V3.cross a bb, o + c)] := rfl
+    rw [hp, ← e1, ← e2, ← e3, ← e4]
+    obtain ⟨h1, h2, h3, h4⟩ := min4_le (planeDist2 (V3.cross c bb, o)) (planeDist2 (V3.cross bb a, o))
+      (planeDist2 (V3.cross bb c, o + a)) (planeDist2 (V3.cross a bb, o + c))
+    refine ⟨?_, ?_⟩
+    · intro pl hpl
+      simp only [List.mem_cons, List.mem_nil_iff, or_false] at hpl
+      rcases hpl with rfl | rfl | rfl | rfl <;> assumption
+    · rcases min4_mem (planeDist2 (V3.cross c bb, o)) (planeDist2 (V3.cross bb a, o))
+        (planeDist2 (V3.cross bb c, o + a)) (planeDist2 (V3.cross a bb, o + c)) with h | h | h | h
+      · exact ⟨_, by simp, h⟩
+      · exact ⟨_, by simp, h⟩
+      · exact ⟨_, by simp, h⟩
+      · exact ⟨_, by simp, h⟩
+  · -- line = 2: v1 = a, v2 = bb, L = c
+    simp only [M3.row, Nat.reduceAdd, Nat.reduceMod, OfNat.ofNat_ne_zero, OfNat.ofNat_ne_one, if_true, if_false,
+      one_ne_zero, ↓reduceIte] at hm hn hl hv1 hv2 ⊢
+    have e1 := (planeDist2_face mi ni 2 hperm c a o hm hn hl hv1).1         -- (cross a c, o)
+    have e2 := (planeDist2_face mi ni 2 hperm c bb o hm hn hl hv2).2        -- (cross c bb, o)
+    have e3 := (planeDist2_face mi ni 2 hperm c a (o + bb) hm hn hl hv1).2  -- (cross c a, o + bb)
+    have e4 := (planeDist2_face mi ni 2 hperm c bb (o + a) hm hn hl hv2).1  -- (cross bb c, o + a)
+    have hp : boxBoundaryPlanes 2 (⟨⟨a, bb, c⟩, o⟩ : Box K) =
+        [(V3.cross c bb, o), (V3.cross bb c, o + a), (V3.cross a c, o), (V3.cross c a, o + bb)] := rfl
+    rw [hp, ← e1, ← e2, ← e3, ← e4]
+    obtain ⟨h1, h2, h3, h4⟩ := min4_le (planeDist2 (V3.cross a c, o)) (planeDist2 (V3.cross c bb, o))
+      (planeDist2 (V3.cross c a, o + bb)) (planeDist2 (V3.cross bb c, o + a))
+    refine ⟨?_, ?_⟩
+    · intro pl hpl
+      simp only [List.mem_cons, List.mem_nil_iff, or_false] at hpl
+      rcases hpl with rfl | rfl | rfl | rfl <;> assumption
+    · rcases min4_mem (planeDist2 (V3.cross a c, o)) (planeDist2 (V3.cross c bb, o))
+        (planeDist2 (V3.cross c a, o + bb)) (planeDist2 (V3.cross bb c, o + a)) with h | h | h | h
+      · exact ⟨_, by simp, h⟩
+      · exact ⟨_, by simp, h⟩
+      · exact ⟨_, by simp, h⟩
+      · exact ⟨_, by simp, h⟩
+
+/-- non-vacuity: a cell tilted in the m-n plane (`c = (0, 1, 6)`), line along x, symmetric about the origin: the nearest
+    face is the tilted one (distance² 144/37 < 9). -/
+example : cylSmallest2 1 2 0 (⟨⟨⟨2, 0, 0⟩, ⟨0, 4, 0⟩, ⟨0, 1, 6⟩⟩, ⟨0, -5/2, -3⟩⟩ : Box ℚ) = 144 / 37 := by
+  decide +kernel
+
 /-! ## disregistry (atomman.defect.disregistry) -/
 
 /-- **disregistry_planes_adjoin**: the two atomic planes whose displacements `disregistry` subtracts are the ones
